@@ -17,6 +17,9 @@ ENS_EVAL_ONE_ARG
 /* chr succeeds exactly on codes 0..255 and rejects every other integer with OUT_OF_RANGE */
 PROP(C10) __CPROVER_ensures((g_eval_n == 1 && IS_INT(ARG) && V_I(ARG) >= 0 && V_I(ARG) <= 255) ==> (OK && V_IS(RET, LITERAL) && !V_ISNULL(RET) && CW(RET->_value.p, 1) == 1))
 PROP(C10) __CPROVER_ensures((g_eval_n == 1 && IS_INT(ARG) && (V_I(ARG) < 0 || V_I(ARG) > 255)) ==> THROWN_RT(EXC_RT_OUT_OF_RANGE))
+/* a decimal code: accepted exactly when 0 <= d < 256 (truncated); every other decimal, NaN included, is OUT_OF_RANGE */
+PROP(C10) __CPROVER_ensures((g_eval_n == 1 && V_IS(ARG, NUMERIC) && V_LEVEL(ARG) == 0 && !V_ISNULL(ARG) && !(V_D(ARG) >= 0.0 && V_D(ARG) < 256.0)) ==> THROWN_RT(EXC_RT_OUT_OF_RANGE))
+PROP(C10) __CPROVER_ensures((g_eval_n == 1 && V_IS(ARG, NUMERIC) && V_LEVEL(ARG) == 0 && !V_ISNULL(ARG) && V_D(ARG) >= 0.0 && V_D(ARG) < 256.0) ==> (OK && V_IS(RET, LITERAL) && !V_ISNULL(RET) && CW(RET->_value.p, 1) == 1))
 /* a null code gives a null string */
 PROP(C10) __CPROVER_ensures((g_eval_n == 1 && V_ISNULL(ARG) && (V_IS(ARG, NO_TYPE) || V_IS(ARG, INTEGER) || V_IS(ARG, NUMERIC))) ==> (OK && V_IS(RET, LITERAL) && V_ISNULL(RET)))
 ENS_TYPE(LITERAL)
